@@ -1777,6 +1777,26 @@ class Interp:
                     defaults[st.target.id] = st.value
         return names, defaults
 
+    def _dataclass_fields(self, ci):
+        """(field names, {name: default expr}) of a class decorated with
+        dataclasses.dataclass (its generated __init__ takes the annotated
+        names in order), else None."""
+        for d in ci.node.decorator_list:
+            path = self.models.decorator_path(self.prog, ci.module, d)
+            if path == 'dataclasses.dataclass':
+                names, defaults = [], {}
+                for c in reversed([c for c in self.prog.mro(ci)
+                                   if isinstance(c, ClassInfo)]):
+                    for st in c.node.body:
+                        if isinstance(st, ast.AnnAssign) and isinstance(
+                                st.target, ast.Name):
+                            if st.target.id not in names:
+                                names.append(st.target.id)
+                            if st.value is not None:
+                                defaults[st.target.id] = st.value
+                return names, defaults
+        return None
+
     def _note_static_loop(self, st, n):
         k = (self.cur_func.qualname if self.cur_func is not None else '?',
              st.lineno)
@@ -2292,6 +2312,10 @@ class Interp:
             for xo in xouts:
                 xo.state.env = dict(caller_env)
                 if xo.kind == 'raise':
+                    if o.kind == 'raise':
+                        # raised while another exception is being handled
+                        # (the __exit__ of a block that failed)
+                        xo.exc.in_handler = True
                     results.append(xo)
                     continue
                 if o.kind != 'raise':
@@ -2900,6 +2924,9 @@ class Interp:
             if v is ABSENT:
                 if name == '__subclasses__':
                     return LibMethod(base, name)
+                if name == '_make' and \
+                        self._namedtuple_fields(base) is not None:
+                    return LibMethod(base, name)
                 if name == '__name__':
                     return base.node.name
                 if name == '__class__':
@@ -3184,6 +3211,14 @@ class Interp:
     def call_value(self, callee, args, kwargs, state, node):
         if isinstance(callee, FuncInfo):
             if callee.kind == 'decorated':
+                for d_ in getattr(callee.node, 'decorator_list', []):
+                    if self.models.decorator_path(
+                            self.prog, callee.module, d_) in \
+                            self.models.DISPATCHING_DECORATORS:
+                        raise Unsupported(
+                            'call of %s, which is replaced by a '
+                            'functools dispatcher (no model) at %s' %
+                            (callee.short, self.site(node)))
                 self.note('decorated function %s analysed through its '
                           'undecorated body' % callee.short)
             return self.call_function(callee, args, kwargs, state, node)
@@ -3215,6 +3250,13 @@ class Interp:
             # call through a conditional callee: both, joined
             g = callee.args[0]
             depth = len(state.kn.atoms)
+            d_ = self.decide(g, state)
+            if d_ is True:
+                return self.call_value(callee.args[1], args, kwargs, state,
+                                       node)
+            if d_ is False:
+                return self.call_value(callee.args[2], args, kwargs, state,
+                                       node)
             s1, s2 = state.fork(), state.fork()
             ok1 = s1.kn.assume(g)
             ok2 = s2.kn.assume(T.not_(g))
@@ -3239,6 +3281,8 @@ class Interp:
             # exception instance: no constructor to run
             return Sym('excinst', ci, tuple(_as_term(a) for a in args))
         nt = self._namedtuple_fields(ci)
+        if nt is None and self.prog.find_method(ci, '__init__') is None:
+            nt = self._dataclass_fields(ci)
         if nt is not None:
             names, defaults = nt
             attrs = {}
